@@ -243,6 +243,7 @@ func c03(r *rt.Run) {
 	r.Assumptions = []string{
 		"oracle: Floyd-Warshall reachability on the labelled dependency graph; temporal mentions count like plain ones",
 		"graphs over n=3 (all labels) and n=4 (reduced labels) IDB predicates, one EDB predicate; built directly as analysis.Program and, for n=3, also through parse+Analyze",
+		"map iteration order inside Stratify is owned by the explorer in a second pass (vmap build, worker processes): default = keys sorted by printed form; 4 global modes and every single deviation",
 	}
 	if r.Replay != "" {
 		_, w := rt.ReadReplay(r.Replay)
@@ -286,7 +287,8 @@ func c03(r *rt.Run) {
 			}
 		})
 	}
-	r.Finish("every labelled dependency graph over 3 IDB predicates (labels absent/pos/neg/agg/temporal-pos/pos+neg[/temporal-neg/neg+pos]) and over 4 (reduced labels), up to renaming of predicates (only the lexicographically least relabelling is run), as analysis.Program and (a 1/61 slice of n=3) as source text through parse+Analyze; " +
+	c03MapOrder(r)
+	r.Finish("every labelled dependency graph over 3 IDB predicates (labels absent/pos/neg/agg/temporal-pos/pos+neg[/temporal-neg/neg+pos]) and over 4 (reduced labels), up to renaming of predicates (only the lexicographically least relabelling is run), as analysis.Program and (a 1/61 slice of n=3) as source text through parse+Analyze; plus the map-iteration-order exploration of Stratify on all labelled 3-predicate graphs (see map_order_exploration); " +
 		"non-trivial = graph has a cycle or a negative/aggregating/temporal edge; distinct by construction")
 }
 
